@@ -906,6 +906,8 @@ def st_msa(tier):
             "distances": distances,
             "tree": tree,
             "narrowed": [],
+            # equal inputs are one Sequence object given several times
+            "share_objects": draw(st.booleans()),
         }
         if findings.is_open(F1) and case["distances"] is None and _identical_homopolymers(seqs):
             # open finding C11-F1: ZeroDivisionError while inferring distances; the class is
@@ -1151,6 +1153,10 @@ def run_msa(case):
     strs = case["seqs"]
     n = len(strs)
     seqs = [_mk_seq(kind, s) for s in strs]
+    if case.get("share_objects") and len(set(strs)) < n:
+        first = {}
+        seqs = [first.setdefault(s, q) for s, q in zip(strs, seqs)]
+        o.label("one_object_given_several_times")
     gap = _gap(case["gap"])
     distances = None
     if case["distances"] is not None:
